@@ -177,7 +177,7 @@ def swapaxes(self, axis1, axis2):
     (4, 3, 2)
     """
     pos, _ = self._get_axes_info([axis1, axis2])
-    axis1, axis2 = pos  # axis positions
+    axis1, axis2 = [p % self.ndim for p in pos]  # axis positions (counted from the end if negative)
     newshape = []
     for i in range(self.ndim):
         if i == axis1:
@@ -371,7 +371,7 @@ def newaxis(self, name, values=None, pos=0):
         raise ValueError("dimension already present: "+name)
 
     assert type(pos) is int
-    if pos == -1: pos = len(self.dims)
+    if pos < 0: pos += len(self.dims) + 1 # counted from the end of the new array
 
     newaxis = (slice(None),)*pos + (np.newaxis,) # pad with ":" to match pos
     newvalues = self.values[newaxis] 
